@@ -631,7 +631,7 @@ func genC02(ctx *hx.Ctx, emit func(hx.Case)) {
 	c02Exhaustive(ctx, emit)
 	n := 1500
 	if ctx.Thorough() {
-		n = 40000
+		n = 25000
 	}
 	for i := 0; i < n; i++ {
 		emit(c02Random(ctx.Rng))
